@@ -1688,4 +1688,149 @@ Section NodeProofs.
     apply in_map_iff in Hpm. destruct Hpm as (m & <- & Hm). cbn [snd].
     rewrite Forall_forall in E1. apply E1. exact Hm.
   Qed.
+  (* ---- provenance of what is written ---- *)
+
+  Lemma queue_action_pend :
+    forall (P : action -> Prop) s a, Forall P (ps_pend s) -> P a -> Forall P (ps_pend (queue_action s a)).
+  Proof.
+    intros P [inb out pend opening conn dial mgr] a H Ha. unfold queue_action, open_or_dial. cbn in *.
+    assert (Hq : Forall P (pend ++ [a])) by (apply Forall_app; split; [exact H|constructor; [exact Ha|constructor]]).
+    destruct pend as [|x pend]; cbn; [|exact Hq].
+    destruct (conn =? 1); cbn; [exact Hq|]. destruct ((mgr =? 1) || (mgr =? 3)); cbn; [exact Hq|constructor].
+  Qed.
+
+  Lemma peer_step_pend_src :
+    forall (P : action -> Prop) s e s' o, peer_step s e = (s', o) ->
+      Forall P (ps_pend s) -> (forall a, e = PSend a -> P a) -> Forall P (ps_pend s').
+  Proof.
+    intros P s e s' o H Hp He. destruct e; cbn [Model.peer_step] in H.
+    - inversion H; subst. destruct (ps_conn s =? 0); [exact Hp|destruct s; exact Hp].
+    - inversion H; subst. exact Hp.
+    - inversion H; subst. destruct s; exact Hp.
+    - unfold send_action in H. destruct (ps_out s) as [c|].
+      + destruct (write_msgs mm c (action_msgs mb mm a)) as [[[d1 p1] c1] o1]. destruct o1; inversion H; subst.
+        * destruct s; exact Hp.
+        * apply queue_action_pend; [destruct s; exact Hp|apply He; reflexivity].
+      + inversion H; subst. apply queue_action_pend; [exact Hp|apply He; reflexivity].
+    - unfold outbound_opened in H. destruct (ps_opening s).
+      + destruct (write_actions mb mm c (ps_pend s)) as [[[d1 p1] c1] o1]. inversion H; subst.
+        destruct o1; destruct s; constructor.
+      + inversion H; subst. exact Hp.
+    - inversion H; subst. unfold outbound_failed. destruct (ps_opening s); [destruct s; constructor|exact Hp].
+    - inversion H; subst. destruct s; exact Hp.
+    - inversion H; subst. unfold conn_closed. destruct (ps_conn s =? 0); [exact Hp|constructor].
+    - inversion H; subst. unfold conn_established. destruct (ps_conn s =? 0); [|exact Hp].
+      destruct (ps_dial s); destruct s; exact Hp.
+    - inversion H; subst. unfold conn_killed. destruct (ps_conn s =? 1); [destruct s; exact Hp|exact Hp].
+    - inversion H; subst. unfold dial_failed. destruct (ps_dial s); [destruct s; constructor|exact Hp].
+    - inversion H; subst. destruct s; exact Hp.
+  Qed.
+
+  Lemma peer_step_written_src :
+    forall (P : action -> Prop) s e s' evs done part, peer_step s e = (s', (evs, (done, part))) ->
+      Forall P (ps_pend s) -> (forall a, e = PSend a -> P a) ->
+      Forall (fun m => exists a, P a /\ In m (action_msgs mb mm a)) done.
+  Proof.
+    intros P s e s' evs done part H Hp He. destruct e; cbn [Model.peer_step] in H;
+      try (inversion H; subst; constructor).
+    - unfold send_action in H. destruct (ps_out s) as [c|].
+      + destruct (write_msgs mm c (action_msgs mb mm a)) as [[[d1 p1] c1] o1] eqn:E.
+        apply write_msgs_spec in E. destruct E as (r & E & _).
+        assert (Hd : Forall (fun m => exists a0, P a0 /\ In m (action_msgs mb mm a0)) d1).
+        { apply Forall_forall. intros m Hm. exists a. split; [apply He; reflexivity|].
+          rewrite E. apply in_or_app. left. exact Hm. }
+        destruct o1; inversion H; subst; exact Hd.
+      + inversion H; subst. constructor.
+    - unfold outbound_opened in H. destruct (ps_opening s).
+      + destruct (write_actions mb mm c (ps_pend s)) as [[[d1 p1] c1] o1] eqn:E.
+        apply write_actions_spec in E. destruct E as (r & E & _). inversion H; subst.
+        apply Forall_forall. intros m Hm.
+        assert (Hin : In m (flat_map (action_msgs mb mm) (ps_pend s))) by (rewrite E; apply in_or_app; left; exact Hm).
+        apply in_flat_map in Hin. destruct Hin as (a & Ha & Hma). exists a. split; [|exact Hma].
+        rewrite Forall_forall in Hp. apply Hp. exact Ha.
+      + inversion H; subst. constructor.
+  Qed.
+
+  Lemma run_peer_written_src :
+    forall (all : list pev) es s,
+      (forall e, In e es -> In e all) -> Forall (fun a => In (PSend a) all) (ps_pend s) ->
+      Forall (fun m => exists a, In (PSend a) all /\ In m (action_msgs mb mm a)) (snd (run_peer s es)).
+  Proof.
+    intros all. induction es as [|e t IH]; intros s Hsub Hp; [constructor|].
+    cbn [Model.run_peer]. destruct (peer_step s e) as [s1 [evs [done part]]] eqn:E1.
+    assert (He : forall a, e = PSend a -> In (PSend a) all) by (intros a ->; apply Hsub; left; reflexivity).
+    pose proof (peer_step_pend_src _ _ _ _ _ E1 Hp He) as Hp1.
+    pose proof (peer_step_written_src _ _ _ _ _ _ _ E1 Hp He) as Hd.
+    specialize (IH s1 (fun x Hx => Hsub x (or_intror Hx)) Hp1).
+    destruct (run_peer s1 t) as [[s2 evs2] done2]. cbn [snd] in *. apply Forall_app. split; assumption.
+  Qed.
+
+  (* nothing is written that the user did not ask to send to this peer *)
+  Lemma written_only_commanded :
+    forall es m, In m (snd (run_peer ps_init es)) ->
+      exists a, In (PSend a) es /\ In m (action_msgs mb mm a).
+  Proof.
+    intros es m H.
+    pose proof (run_peer_written_src es es ps_init (fun e He => He) (Forall_nil _)) as HF.
+    rewrite Forall_forall in HF. apply HF. exact H.
+  Qed.
+
+
+  Lemma set_ps_get :
+    forall st p s, nth p (set_ps st p s) ps_init = s \/ set_ps st p s = st.
+  Proof.
+    induction st as [|h t IH]; intros p s; [right; reflexivity|].
+    destruct p; cbn [set_ps nth]; [left; reflexivity|].
+    destruct (IH p s) as [H|H]; [left; exact H|right; rewrite H; reflexivity].
+  Qed.
+
+  Lemma node_step_pend_src :
+    forall (P : N -> action -> Prop) st p e st' o, node_step st (p, e) = (st', o) ->
+      (forall q, Forall (P q) (ps_pend (get_ps st q))) -> (forall a, e = PSend a -> P p a) ->
+      forall q, Forall (P q) (ps_pend (get_ps st' q)).
+  Proof.
+    intros P st p e st' o H Hinv He q. unfold Model.node_step in H. cbn [fst snd] in H.
+    destruct (peer_step (get_ps st p) e) as [s' o'] eqn:E. inversion H; subst. clear H.
+    destruct (N.eq_dec q p) as [->|Hne].
+    - unfold get_ps at 1. destruct (set_ps_get st (N.to_nat p) s') as [-> | ->].
+      + eapply peer_step_pend_src; [exact E|apply Hinv|exact He].
+      + apply Hinv.
+    - unfold get_ps at 1. rewrite set_ps_other; [apply Hinv|].
+      intros E2. apply Hne. apply N2Nat.inj. symmetry. exact E2.
+  Qed.
+
+  Lemma run_node_written_src :
+    forall (all : list (N * pev)) ops st,
+      (forall x, In x ops -> In x all) ->
+      (forall q, Forall (fun a => In (q, PSend a) all) (ps_pend (get_ps st q))) ->
+      Forall (fun pm => exists a, In (fst pm, PSend a) all /\ In (snd pm) (action_msgs mb mm a))
+             (snd (run_node_ops st ops)).
+  Proof.
+    intros all. induction ops as [|[p e] t IH]; intros st Hsub Hinv; [constructor|].
+    cbn [Model.run_node_ops]. destruct (node_step st (p, e)) as [st1 [evs [done part]]] eqn:E1.
+    assert (He : forall a, e = PSend a -> In (p, PSend a) all) by (intros a ->; apply Hsub; left; reflexivity).
+    pose proof (node_step_pend_src (fun q a => In (q, PSend a) all) _ _ _ _ _ E1 Hinv He) as Hinv1.
+    specialize (IH st1 (fun x Hx => Hsub x (or_intror Hx)) Hinv1).
+    destruct (run_node_ops st1 t) as [[st2 evs2] done2]. cbn [snd fst] in *.
+    apply Forall_app. split; [|exact IH].
+    unfold Model.node_step in E1. cbn [fst snd] in E1.
+    destruct (peer_step (get_ps st p) e) as [s' [evs' [done' part']]] eqn:E. inversion E1; subst.
+    pose proof (peer_step_written_src (fun a => In (p, PSend a) all) _ _ _ _ _ _ E (Hinv p) He) as Hd.
+    apply Forall_forall. intros pm Hpm. apply in_map_iff in Hpm. destruct Hpm as (m & <- & Hm).
+    cbn [fst snd]. rewrite Forall_forall in Hd. apply Hd. exact Hm.
+  Qed.
+
+  (* at the node: what is written to a peer's substream is a message of a command the user gave
+     for that peer — nothing is invented, nothing leaks from one peer to another *)
+  Lemma node_written_only_commanded :
+    forall ops st, (forall q, ps_pend (get_ps st q) = []) ->
+      forall p m, In (p, m) (snd (run_node_ops st ops)) ->
+        exists a, In (p, PSend a) ops /\ In m (action_msgs mb mm a).
+  Proof.
+    intros ops st H0 p m H.
+    assert (Hinv : forall q, Forall (fun a => In (q, PSend a) ops) (ps_pend (get_ps st q)))
+      by (intros q; rewrite H0; constructor).
+    pose proof (run_node_written_src ops ops st (fun x Hx => Hx) Hinv) as HF.
+    rewrite Forall_forall in HF. apply (HF (p, m)). exact H.
+  Qed.
 End NodeProofs.
